@@ -194,6 +194,29 @@ func (c *ctx) outConfig(n int) xsens.OutputConfiguration {
 	return cfg
 }
 
+// emuDelivers: frames of every boundary size (any identifier, and as a configuration command) handed to an emulator;
+// the mode commands behind each show whether its scanner delivered it and lives on
+func (c *ctx) emuDelivers() {
+	for _, n := range []int{0, 1, 254, 255, 256, 2044, 2046, 2047, 2048} {
+		for k := 0; k < 3; k++ {
+			mid := xsens.MessageIdentifier(c.rng.Intn(256))
+			if k == 0 {
+				mid = xsens.MessageIdentifierSetOutputConfiguration
+			}
+			c.emitEmu("emu", []eev{
+				{kind: "recv", frame: xsens.NewMessage(xsens.MessageIdentifierGotoMeasurement, nil)},
+				{kind: "recv", frame: xsens.NewMessage(mid, c.payload(n))},
+				{kind: "lastid"},
+				{kind: "recv", frame: xsens.NewMessage(xsens.MessageIdentifierGotoConfig, nil)},
+				{kind: "lastid"},
+				{kind: "recv", frame: xsens.NewMessage(xsens.MessageIdentifierGotoMeasurement, nil)},
+				{kind: "lastid"},
+			})
+			c.count("frames-through-emulator")
+		}
+	}
+}
+
 // the seven event kinds of the property, instantiated
 func (c *ctx) emuEvent(k int) eev {
 	valid := []byte(xsens.NewMessage(xsens.MessageIdentifierMTData2, []byte{0x10, 0x20, 0x02, 0x00, byte(c.rng.Intn(256))}))
